@@ -630,6 +630,39 @@ def run(ctx, spec):
             if len(out["samples"]) < 2:
                 out["samples"].append(dict(where=where, plan_length=len(plan), plan=plan[:4]))
         stats["plans_replayed_on_impl"] = replayed
+        # ---- a cheap sweep over parameter sets with MANY operating systems / services (names such as os_1 and
+        # os_10 ...): only the pre-screens run on every scenario, the model's closure and the replay decide candidates
+        import nasim
+        many = [dict(num_hosts=8, num_services=3, num_os=15, num_processes=4), dict(num_hosts=16, num_services=5, num_os=20, num_processes=4),
+                dict(num_hosts=10, num_services=12, num_os=11, num_processes=3, restrictiveness=2)]
+        swept = 0
+        for _ in range(240 if tier == "quick" else 3000):
+            p_ = rng.choice(many)
+            s_ = rng.randrange(100000)
+            np.random.seed(s_)
+            try:
+                sc_ = nasim.generate_scenario(**p_)
+                sd_ = scen.scenario_to_sd(sc_)
+            except Inexact:
+                raise
+            except Exception as e_:   # noqa: BLE001
+                out["violations"].append(dict(kind="generator-params", property=pid, failing_input_found=True, signature=None,
+                                              params=p_, seed=s_, what=f"the generator raised: {e_!r}"[:300]))
+                break
+            swept += 1
+            out["evaluations"] += 1
+            if py_goal_reachable(sd_) and not sensitive_not_vulnerable(sd_):
+                continue
+            so_ = run_driver([[15, scen.sd_wire(sd_)]])[0]
+            weak_ = sensitive_not_vulnerable(sd_)
+            if not so_[0] or weak_ or not replay_plan(sc_, so_[1], sd_):
+                out["violations"].append(dict(kind="scenario", property=pid, failing_input_found=True, signature=None,
+                                              params=p_, seed=s_, scenario=sd_,
+                                              what=("sensitive host(s) %s are not vulnerable to an available exploit (+ escalation)" % weak_
+                                                    if weak_ else "no action sequence reaches the goal / the plan's replay does not end "
+                                                                  "with the terminal flag") + " (sweep over parameter sets with many names)"))
+                break
+        stats["many_names_sweep"] = swept
         if any(v["kind"] == "broken-correspondence" for v in out["violations"]) \
            and not any(v.get("failing_input_found") for v in out["violations"]):
             found, tried = search_unsolvable(rng, psets, 40 if tier == "quick" else 600, reuse=True)
